@@ -178,6 +178,23 @@ def spell_int(rng, n, p=0.12):
     return IntSub(n)
 
 
+class StrSub(str):
+    """A user's own str subclass (argument-spelling ingredient)."""
+    __slots__ = ()
+
+
+def spell_str(rng, text, p=0.1):
+    """The string `text` as a caller may legitimately spell it: the plain str, a member of a `class X(str, Enum)`
+    enumeration whose value it is (equal to and hashing like the plain string, but with another str()/repr()), or
+    another str subclass."""
+    if type(text) is not str or rng.random() >= p:
+        return text
+    if rng.random() < 0.6:
+        import enum
+        return enum.Enum("RegName", {"MEMBER": text}, type=str).MEMBER
+    return StrSub(text)
+
+
 def spell_bool(rng, b, p=0.3):
     """A flag as a caller may spell it: the bool itself, or a truthy/falsy int or IntEnum member of the same truth."""
     if type(b) is not bool or rng.random() >= p:
